@@ -363,6 +363,27 @@ def run(ctx):
     if n_loops < 6:
         raise AnalysisBroken("R-EOF-EXIT: only %d consuming loops found in the lexer" % n_loops)
 
+    # ---------------------------------------------------------------- the two whitespace classes agree
+    r = rep.rule("R-WS-AGREE", "a string token ends at any isspace() character, so whatever is in that class — and is not a line end — must be skipped between tokens: the "
+                               "predicate lex() skips blanks with answers true for a character that is isspace() and is neither '\\n' nor '\\r' nor any character it names "
+                               "(form feed, vertical tab).  Otherwise lex() hands such a byte to the string lexer, which stops at once: an empty token, no progress", floor=1)
+    wsf = [g for g in prog.functions.values() if g.name.split("::")[-1] == "isNonNewlineSpace" and not g.is_lambda]
+    if len(wsf) != 1:
+        raise AnalysisBroken("isNonNewlineSpace not found (%d)" % len(wsf))
+    wsf = wsf[0]
+    env = {}
+    for x in wsf.nodes:
+        if x.get("k") == "bin" and x.get("op") in ("==", "!="):
+            l_, r_ = x.child("l"), x.child("r")
+            env["(%s == %s)" % (cfg.canon(l_), cfg.canon(r_))] = False
+            env["(%s == %s)" % (cfg.canon(r_), cfg.canon(l_))] = False
+        if x.get("k") == "call" and (x.get("fn") or "").split("::")[-1] == "isspace":
+            env[cfg.canon(x)] = True
+    got = cfg.possible_returns(wsf, env)
+    uses = [g for g in prog.functions.values() if qmatch(g.cls, "llbuild::ninja::Lexer") and any((c.get("fn") or "").split("::")[-1] == "isspace" for c in g.calls())]
+    r.check(got == {True}, "isNonNewlineSpace|covers-isspace", "%d lexer functions end tokens on isspace()" % len(uses), "for a character that is isspace() but none of the characters "
+            "the predicate names, the predicate answers %s: such a byte ends a string token but is not skipped between tokens" % sorted("value-dependent" if v is None else str(v).lower() for v in got), wsf)
+
     # ---------------------------------------------------------------- token tiling
     r = rep.rule("R-TOKEN-TILING",
                  "every token Lexer::lex returns gets its start assigned before its kind/length is set; length is "
@@ -711,4 +732,5 @@ VARIANTS = [
          new="  return bufferPos + 1 == buffer.end() ? -1 : static_cast<unsigned char>(*bufferPos);", expect=("R-EOF-TRUE-END", "eof-only-at-end")),
     dict(name="comment-skip-ignores-end-of-buffer", file="lib/Ninja/Lexer.cpp", old="  for (;;) {\n    int c = peekNextChar();\n    if (c == -1 || c == '\\n' || c == '\\r')\n      break;\n    getNextChar();\n  }",
          new="  for (int c = peekNextChar(); c != '\\n' && c != '\\r'; c = peekNextChar())\n    getNextChar();", expect=("R-EOF-EXIT", "skipToEndOfLine")),
+    dict(name="blank-predicate-names-only-space-and-tab", file="lib/Ninja/Lexer.cpp", old="  return isspace(c) && c != '\\n' && c != '\\r';", new="  return c == ' ' || c == '\\t';", expect=("R-WS-AGREE", "covers-isspace")),
 ]
